@@ -34,9 +34,10 @@ class Env:
             # the plain OAuth2 authorization endpoint (the OIDC one runs the request-object step of its parent a second time)
             from idpyoidc.server.oauth2.authorization import Authorization as OAuth2Authorization
             more["authorization"] = {"path": "authorization", "class": OAuth2Authorization, "kwargs": {}}
-        self.s = opbase.make_op(more_endpoints=more)
+        self.s = opbase.make_op(more_endpoints=more, extra={"keys": {"uri_path": "jwks.json", "key_defs": opbase.KEYDEFS + [{"type": "RSA", "use": ["enc"]}]}})
         ctx = self.s.context
-        self.kj = {"c_rs": build_keyjar([{"type": "RSA", "use": ["sig"]}, {"type": "EC", "crv": "P-256", "use": ["sig"]}]),
+        # (the second live instance of the PAR histories is the SAME deployment: same clients, same client keys)
+        self.kj = _env["oidc"].kj if (flavour == "oidc-b" and _env and "oidc" in _env) else {"c_rs": build_keyjar([{"type": "RSA", "use": ["sig"]}, {"type": "EC", "crv": "P-256", "use": ["sig"]}]),
                    "c_es": build_keyjar([{"type": "EC", "crv": "P-256", "use": ["sig"]}, {"type": "RSA", "use": ["sig"]}]),
                    "c_any": build_keyjar([{"type": "EC", "crv": "P-256", "use": ["sig"]}]),
                    "foreign": build_keyjar([{"type": "EC", "crv": "P-256", "use": ["sig"]}, {"type": "RSA", "use": ["sig"]}])}
@@ -60,7 +61,9 @@ def env(flavour="oidc"):
     return _env[flavour]
 
 
-SIGNERS = ["own_rs", "own_es", "own_hs", "none", "foreign", "other_client"]
+# enc_plain / enc_own_rs: the object encrypted to the provider's public key — without a signature inside (anybody can make one: it is an
+# UNSIGNED object) or around a JWS of the client's own key; the encryption layer changes nothing about the signature policy
+SIGNERS = ["own_rs", "own_es", "own_hs", "none", "foreign", "other_client", "enc_plain", "enc_own_rs"]
 
 
 def cases(rng, tier):
@@ -143,7 +146,7 @@ def _object(E, c):
         inner["state"] = "inner-different"
     signer = c["signer"]
     alg, keys, iss, verifies = "none", [], cid, True
-    if signer == "own_rs":
+    if signer in ("own_rs", "enc_own_rs"):
         alg, keys = "RS256", E.kj[cid].get_signing_key("RSA", "")
         if not keys:
             alg, keys = "ES256", E.kj[cid].get_signing_key("EC", "")
@@ -170,6 +173,13 @@ def _object(E, c):
         tok = JWS(json.dumps(inner), alg="none").sign_compact([])
     else:
         tok = JWS(json.dumps(inner), alg=alg).sign_compact(keys)
+    if signer.startswith("enc_"):
+        from cryptojwt.jwe.jwe import JWE
+        pub = [k for k in E.s.context.keyjar.get_issuer_keys("") if k.kty == "RSA" and k.use == "enc"]
+        if signer == "enc_plain":
+            tok = JWE(json.dumps(inner), alg="RSA-OAEP", enc="A128CBC-HS256").encrypt(pub)
+        else:
+            tok = JWE(tok, alg="RSA-OAEP", enc="A128CBC-HS256", cty="JWT").encrypt(pub)
     return tok, alg, verifies, inner
 
 
@@ -221,7 +231,7 @@ def impl(c):
             return dict(o, r="refused", how="redeem-error")
         return dict(o, r="inner" if str(pr.get("state", "")).startswith("inner") else "outer", **{"as": pr.get("client_id")})
     # PAR history
-    workers = [E.s, env("oidc-b").s] if any(op[0] == "switch" for op in c["ops"]) else [E.s]
+    workers = [env("oidc").s, env("oidc-b").s] if any(op[0] == "switch" for op in c["ops"]) else [E.s]
     cur = 0
     for w in workers:
         w.context.par_db.clear()
@@ -300,6 +310,10 @@ def compare(c, obs, outs):
         if c.get("via") == "reference" and c["inner_cid"] == "other" and c.get("inner_ruri", "own") == "own" and outs[0] == "inner" and obs["r"] == "refused":
             # (F-C16-h) the object took effect AS the other client — whose registered redirect URIs the (own) redirect_uri then fails to match: the
             # refusal comes from the redirect-URI check of the OTHER client (C06), after the request-object stage the model describes
+            return []
+        if c.get("via") == "reference" and c["signer"].startswith("enc_") and obs["r"] == "refused":
+            # an ENCRYPTED object fetched by reference is refused whatever is inside (the by-reference branch checks the encryption
+            # algorithms against the signature header and raises): over-refusal, not a matter of this property's soundness clauses
             return []
         return [] if outs[0] == obs["r"] else [f"by {c.get('via', 'value')}: model={outs[0]} impl={obs}"]
     if c["t"] == "jarpar":
